@@ -49,8 +49,9 @@ const (
 	kFunc
 	kErr // an error value: its message
 	kNil
-	kConst // untyped integer constant
-	kAny   // interface value: Go.Any
+	kConst  // untyped integer constant
+	kAny    // interface value: Go.Any
+	kBucket // diskstore.Bucket: the key-value model Base/KV.lean
 )
 
 type xty struct {
@@ -65,16 +66,17 @@ type xty struct {
 }
 
 var (
-	tInt   = &xty{k: kInt}
-	tNat   = &xty{k: kNat}
-	tU64x  = &xty{k: kU64}
-	tBoolx = &xty{k: kBool}
-	tStr   = &xty{k: kStr}
-	tBytex = &xty{k: kByte}
-	tErr   = &xty{k: kErr}
-	tNilx  = &xty{k: kNil}
-	tCon   = &xty{k: kConst}
-	tAny   = &xty{k: kAny}
+	tInt    = &xty{k: kInt}
+	tNat    = &xty{k: kNat}
+	tU64x   = &xty{k: kU64}
+	tBoolx  = &xty{k: kBool}
+	tStr    = &xty{k: kStr}
+	tBytex  = &xty{k: kByte}
+	tErr    = &xty{k: kErr}
+	tNilx   = &xty{k: kNil}
+	tCon    = &xty{k: kConst}
+	tAny    = &xty{k: kAny}
+	tBucket = &xty{k: kBucket}
 )
 
 func listOf(e *xty) *xty { return &xty{k: kList, elem: e} }
@@ -176,6 +178,8 @@ func (t *xty) lean() string {
 		return "Byte"
 	case kAny:
 		return "Go.Any α"
+	case kBucket:
+		return "KV"
 	case kList:
 		if t.elem.k == kByte {
 			return "Bytes"
@@ -304,6 +308,8 @@ type xtr struct {
 	aliases        map[string]*xty        // named non-struct types of the spec
 	known          map[string]*xty        // functions of the same module translated earlier (callable)
 	poly           bool                   // the function mentions `any`: it gets the type parameter α
+	usesKV         bool                   // the function has a diskstore.Bucket: the module imports Base/KV.lean
+	uses           map[string]useSpec     // functions translated into other modules that this one calls
 }
 
 func (x *xtr) pos(n ast.Node) token.Position {
@@ -419,6 +425,10 @@ func (x *xtr) goTy(e ast.Expr) *xty {
 		if id, ok := t.X.(*ast.Ident); ok {
 			if id.Name == "uuid" && t.Sel.Name == "UUID" {
 				return listOf(tBytex)
+			}
+			if id.Name == "diskstore" && t.Sel.Name == "Bucket" {
+				x.usesKV = true
+				return tBucket
 			}
 			if st, ok := x.structs[t.Sel.Name]; ok { // pkg.Struct named in the spec
 				return &xty{k: kStruct, name: t.Sel.Name, poly: st.poly}
